@@ -163,6 +163,8 @@ def run(ctx):
                 continue
             pat = (rnd.randrange(256), rnd.randrange(256))
             ov = cartio.sparse_overrides(rnd, 40)
+            if k % 3 == 1:
+                ov.update(cartio.default_row_overrides(rnd))
             items.append((len(items), name, code, pat, ov, rnd.choice((0, 8, 16, 33, 41, 255)), dest, ctx.seed * 977 + k, ctx.tmp))
     res = core.parmap(_mk, items, procs=16, chunksize=1) if len(items) >= 8 else [_mk(x) for x in items]
     traces, meta = [], []
